@@ -161,10 +161,13 @@ fn translate_position(input: &[u8], index: usize) -> (usize, usize) {
     };
     let line = input[0..line_start].iter().filter(|b| **b == b'\n').count();
 
-    let column = std::str::from_utf8(&input[line_start..=index])
-        .map(|s| s.chars().count() - 1)
-        .unwrap_or_else(|_| index - line_start);
-    let column = column + column_offset;
+    // Count the characters in front of the position (which is the first byte of a character or
+    // the end of the input), rather than slicing through the character it sits on
+    let end = (index + column_offset).min(input.len());
+    let column = std::str::from_utf8(&input[line_start..end])
+        .map(|s| s.chars().count())
+        .unwrap_or_else(|_| end - line_start);
+    let column = column + (index + column_offset - end);
 
     (line, column)
 }
